@@ -228,7 +228,7 @@ def _store(mod, path):
 
         # the probe is a trivial module of its own, so that a loader that chokes on a particular
         # *program* is reported as what it is (a violation), not as a format change
-        probe = path + ".format-probe"
+        probe = os.path.join(os.path.dirname(path), "FormatProbe__.nslir")
         try:
             with core.Quiet():
                 pm = Compiler.Compiler().Compile("export function probe__(int a) -> int { return a; }")
@@ -265,6 +265,10 @@ def _child(argv, cwd, hs, timeout=60):
     p = subprocess.run(
         [sys.executable] + argv, cwd=cwd, env=env, capture_output=True, text=True, timeout=timeout, stdin=subprocess.DEVNULL
     )
+    if p.returncode < 0 or "MemoryError" in p.stderr or "Errno 28" in p.stderr or "Errno 5]" in p.stderr:
+        # killed by a signal / out of memory / the scratch file system is full or failing: the
+        # environment, not the product
+        raise core.HarnessError(f"child {argv[:3]} died of its environment (exit {p.returncode}): {p.stderr[-200:]}")
     return p.returncode, p.stdout, p.stderr
 
 
@@ -343,9 +347,13 @@ def _execute(sc, store):
             self.loads = []
             self.inner = inner
 
-        def Load(self, name):
+        def Load(self, name, *a, **kw):
             self.loads.append(name)
-            return self.inner.Load(name)
+            return self.inner.Load(name, *a, **kw)
+
+        def __getattr__(self, attr):
+            # whatever else the linker asks of a loader is answered by the real one
+            return getattr(self.inner, attr)
 
     def reference(gen):
         key = (gen, tuple(sorted(variants.items())))
@@ -438,6 +446,9 @@ def _execute(sc, store):
                     if ref[0] == "bad":
                         return done("discard", "reference-bad", ref[1])
                     key = _exc_key_from_text(err) if "Traceback" in err else "reject"
+                    if (key == "reject" or key.startswith("CompileException@")) and code >= 0 and (
+                            mods[m].get("repeat_import") is not None or mods[m].get("umbrella")):
+                        return done("discard", "policy-rejected-module", (err or out)[-300:])
                     return done(
                         "violation",
                         "compile-failed",
@@ -459,7 +470,7 @@ def _execute(sc, store):
                     ref = reference(gen)
                     if ref[0] == "bad":
                         return done("discard", "reference-bad", ref[1])
-                    if status == "reject" and (mods[m].get("repeat_import") is not None or mods[m].get("umbrella")):
+                    if (status == "reject" or status.startswith("exc:CompileException@")) and (mods[m].get("repeat_import") is not None or mods[m].get("umbrella")):
                         # a diagnosed rejection of a repeated import line / of a module without functions
                         # is a language-policy decision the property does not exclude
                         return done("discard", "policy-rejected-module", why)
@@ -501,7 +512,7 @@ def _execute(sc, store):
             if added_and_imported:
                 bump("added_and_imported")
             if st["via"] == "nslr":
-                r = _link_nslr(sc, st, add, refmod, store, log, bump)
+                r = _link_nslr(sc, dict(st, stale_variants=bool(variants)), add, refmod, store, log, bump)
                 if r is not None:
                     return done(*r[:3], **r[3])
                 abstract.append(["nslr", names_add])
@@ -738,14 +749,26 @@ def _link_nslr(sc, st, add, refmod, store, log, bump):
         if code == 0:
             last = lines[-1] if lines else ""
             # the two commands differ in their MODULE argument only: whatever the tool prints about it
-            # (path, file name, stem) is not part of the result
-            for tok in sorted({modarg, os.path.basename(modarg), os.path.splitext(os.path.basename(modarg))[0],
-                               os.path.abspath(modarg)}, key=len, reverse=True):
+            # (path, file name, stem) is not part of the result.  Two normalisations - with and without
+            # the bare stem, which for a module called "a" also occurs in unrelated words; the
+            # outcomes agree if either normalisation agrees
+            toks = sorted({modarg, os.path.basename(modarg), os.path.abspath(modarg)}, key=len, reverse=True)
+            norm1 = last
+            for tok in toks:
                 if tok:
-                    last = last.replace(tok, "<MODULE>")
-            return ["ok", last]
+                    norm1 = norm1.replace(tok, "<MODULE>")
+            stem = os.path.splitext(os.path.basename(modarg))[0]
+            norm2 = re.sub(r"(?<![A-Za-z0-9_])" + re.escape(stem) + r"(?![A-Za-z0-9_])", "<MODULE>", norm1) if stem else norm1
+            return ["ok", norm1, norm2]
         last = err.strip().splitlines()[-1] if err.strip() else ""
         return ["fail", last.split(":")[0].split(".")[-1]]
+
+    def same(a, b):
+        if a[0] != b[0]:
+            return False
+        if a[0] == "ok":
+            return a[1] == b[1] or a[2] == b[2]
+        return a == b
 
     try:
         for h in sc["hist"]:
@@ -766,8 +789,15 @@ def _link_nslr(sc, st, add, refmod, store, log, bump):
             log.add("nslr", root=root, fn=h["f"], hs=st["hs"], got=got)
             if decoy_probe:
                 pr_ = outcome(*_child([tool, "run", decoy_probe, h["f"]] + args, store, st["hs"]), modarg=decoy_probe)
-                bump("probe_nslr_through_decoy_directory_" + ("same_as_reference" if pr_ == exp else "differs"))
-            if got != exp:
+                bump("probe_nslr_through_decoy_directory_" + ("same_as_reference" if same(pr_, exp) else "differs"))
+            if (not same(got, exp) and st.get("stale_variants") and got[0] == "fail" and exp[0] == "ok"
+                    and got[1] not in ("RuntimeError", "KeyError", "AssertionError", "TypeError", "AttributeError",
+                                       "RecursionError")):
+                # as for the in-process link: a linker that refuses importers compiled before a module was
+                # rebuilt, with an error of its own, is within the statement
+                bump("stale_importers_refused_by_the_linker")
+                continue
+            if not same(got, exp):
                 key = _exc_key_from_text(err) if "Traceback" in err else "output"
                 return (
                     "violation",
